@@ -12,3 +12,4 @@ import Photon.Model.Sync
 import Photon.Properties.C04
 import Photon.Properties.C01
 import Photon.Properties.C02
+import Photon.Properties.C03
